@@ -36,7 +36,7 @@ def mutate(rng, s):
 
 
 def expr_strings(rng):
-    ops = ['+', '-', '*', '/', '%', ',', ' ', '(', ')', 'eq', 'lt', 'and', 'or', 'not', '$a', '$b', '${c}', '1', '2.5', '-3', '0', 'sin(', 'min(', 'clamp(', 'random()', 'randint(', 'if(', 'head(', '#r~w', '#r@tl']
+    ops = ['+', '-', '*', '/', '%', ',', ' ', '(', ')', 'eq', 'lt', 'and', 'or', 'not', '$a', '$b', '${c}', '1', '2.5', '-3', '0', 'sin(', 'min(', 'clamp(', 'random()', 'randint(', 'randint(1, 2147483647)', 'randint(0, 3000000000)', 'randint(-3000000000, 0)', 'randint(2147483647, 2147483647)', '2147483648', '-2147483649', '1e39', '0/0', 'if(', 'head(', '#r~w', '#r@tl']
     return ' '.join(rng.choice(ops) for _ in range(rng.range(1, 12)))
 
 
@@ -235,6 +235,10 @@ def run(ctx):
     for c in cc:
         st['evaluations'] += 1; st['traces_validated_against_impl'] += 1
         a, b = im.get(c.id), mo.get(c.id)
+        if c.kind == 'elbbox' and a and b and a[0] == 'OK' and b[0] == 'OK':
+            # the sign of a zero coming out of f32::min / f32::max is unspecified: -0 and +0 are one box
+            z = lambda r: [r[0]] + [','.join('0' if w == '2147483648' else w for w in x.split(',')) for x in r[1:]]
+            a, b = z(a), z(b)
         fam = 'corr:' + c.kind; dist[fam] = dist.get(fam, 0) + 1
         if a and a[0] not in ('OK', 'ERR'):
             yield {'kind': 'oracle', 'what': 'hook did not end with a result or an error: %s on %s' % (a, c.meta['what']), 'case': {'line': c.line()}, 'observed': a, 'expected': 'Ok or Err'}
